@@ -171,8 +171,21 @@ func ruleADDR1(c *Ctx) {
 	// consumers: the method arshalers must consult the bit together with needAddr
 	nUse := 0
 	fa := p.Field("json", "addressableValue", "forcedAddr")
+	// the marshal closures installed by makeMethodArshaler (or by the private helpers it was split into)
+	installers := map[string]bool{}
+	if mm := p.Func("json.makeMethodArshaler"); mm != nil {
+		for _, g := range p.CalleeClosure(mm, 2) {
+			if g.Decl != nil {
+				installers[g.Name] = true
+			}
+		}
+	}
 	for _, f := range p.FuncsIn("json") {
-		if f.Body() == nil || !strings.HasPrefix(f.Name, "json.makeMethodArshaler:marshal") || strings.Contains(f.Name, "$") {
+		if f.Body() == nil || f.Lit == nil || strings.Contains(f.Name, "$") {
+			continue
+		}
+		i := strings.Index(f.Name, ":marshal")
+		if i < 0 || !installers[f.Name[:i]] || strings.Contains(f.Name[:i], "makeDefaultArshaler") {
 			continue
 		}
 		uses := false
